@@ -266,6 +266,18 @@ class PythonExpressionMapper(_LeftNestedPowerMixin, StringifyMapper):
                 expr.function, expr.parameters,
                 expr.kw_parameters)
 
+    def map_comparison(self, expr, enclosing_prec, *args, **kwargs):
+        from pymbolic.mapper.stringifier import PREC_COMPARISON
+
+        # Python chains comparisons: "a < b == c" means "a < b and b == c".
+        # An operand that is itself a comparison needs parentheses.
+        return self.parenthesize_if_needed(
+                self.format("%s %s %s",
+                    self.rec(expr.left, PREC_COMPARISON + 1, *args, **kwargs),
+                    expr.operator,
+                    self.rec(expr.right, PREC_COMPARISON + 1, *args, **kwargs)),
+                enclosing_prec, PREC_COMPARISON)
+
     def map_if(self, expr, enclosing_prec):
         from dagrt.expression import PREC_IFTHENELSE
         return self.parenthesize_if_needed(
